@@ -213,7 +213,23 @@ def build(ctx):
         p0 = tm.subst(tm.diff(zp, rho), {rho: tm.rconst(0)})
         return with_models(be.prove_equal_cas(tm.sub(Zs, tm.mul(c0, rho)), tm.sub(zp, tm.mul(p0, rho)), {"tr": RECT["tr"], "rho": (0.0, 3.5)}, seed=ctx.seed), ret)
 
-    obs.append(Obligation("dak.eos.rest", "all other terms of the solved equation (rho^2, rho^5 and the exponential term) equal the published DAK equation", rest, fs, "CAS", coeff0_replay))
+    def rest_replay(w):
+        # the returned Z must satisfy the published equation WITH THE LIBRARY'S OWN first coefficient (that coefficient is
+        # dak.coeff.0 / finding F1; this replay is about the other terms only)
+        zf = real(ZF)
+        A1, A2 = 0.3265, -1.0700
+        Tpc, Ppc = -72.0, 650.0
+        for t_r in (float(w.get("tr", 1.5)) if isinstance(w.get("tr"), (int, float)) else 1.5, 1.1, 2.4):
+            for p_r in (0.5, 5.0, 20.0):
+                z = zf(t_r * (Tpc + 459.67) - 459.67, p_r * Ppc, Tpc, Ppc)
+                rh = 0.27 * p_r / (t_r * z)
+                zp = tm.feval(z_published(rho, tr), {"rho": rh, "tr": t_r})
+                zp_lib_c0 = zp - (A1 + A2 / t_r) * rh + (A1 * A2 / t_r) * rh
+                if abs(zp_lib_c0 - z) > 1e-9:
+                    return {"reproduced": True, "input": {"T_r": t_r, "p_r": p_r}, "observed": {"Z": float(z), "published equation with the library's first coefficient, at rho(Z)": float(zp_lib_c0)}, "required": "equal"}
+        return {"reproduced": False}
+
+    obs.append(Obligation("dak.eos.rest", "all other terms of the solved equation (rho^2, rho^5 and the exponential term) equal the published DAK equation", rest, fs, "CAS", rest_replay))
 
     def pure():
         ret, raises, roots, outs = extract(ctx, reduced=False)
